@@ -452,6 +452,59 @@ fn race<U: Seed>(rep: &mut Report, rng: &mut Rng, rounds: usize, kmax: usize) ->
     contended
 }
 
+/// A seed with `Drop` next to a value *without* drop glue: the seed is still
+/// dropped exactly once (at initialisation, or with the cell), in sequences
+/// and under races.
+fn value_without_drop_glue(rep: &mut Report, rng: &mut Rng, rounds: usize) {
+    for round in 0..rounds {
+        rep.eval();
+        let mark = ledger::mark();
+        let dd0 = ledger::double_drops();
+        let cell: OnceInitCell<SeedTok, u64> = OnceInitCell::new(SeedTok::new());
+        let k = if cfg!(miri) { 2 } else { rng.range(1, 6) };
+        let fail_first = rng.chance(1, 2);
+        let scen = json!({"seed": "drop", "value": "u64 (no drop glue)", "threads": k, "failing_attempt_first": fail_first, "round": round});
+        if fail_first {
+            let r: Result<&u64, &str> = cell.get_or_try_init(|_| Err("vh: init failed"));
+            if r.is_ok() || cell.get().is_some() || ledger::live_since(mark).len() != 1 {
+                rep.violation("seed-lost", "C17/seed-lost", json!({"live_after_failed_attempt": ledger::live_since(mark).len()}), scen.clone());
+            }
+        }
+        let mut vals = vec![];
+        std::thread::scope(|s| {
+            let hs: Vec<_> = (0..k).map(|t| { let cell = &cell; s.spawn(move || *cell.get_or_init(|_| 1000 + t as u64)) }).collect();
+            for h in hs {
+                vals.push(h.join().unwrap());
+            }
+        });
+        vals.dedup();
+        if vals.len() != 1 || cell.get() != Some(&vals[0]) {
+            rep.violation("different-references", "C17/different-references", json!({"values": vals}), scen.clone());
+        }
+        // the seed was consumed by the successful initialisation
+        let live = ledger::live_since(mark);
+        if !live.is_empty() {
+            rep.violation(
+                "seed-not-dropped",
+                "C17/seed-value-exclusivity",
+                json!({"what": "the cell is initialised but its seed is still alive", "live_tokens": live.len()}),
+                scen.clone(),
+            );
+        }
+        drop(cell);
+        if !ledger::live_since(mark).is_empty() || ledger::double_drops() != dd0 {
+            rep.violation(
+                "ledger",
+                "C17/ledger-imbalance",
+                json!({"still_live": ledger::live_since(mark).len(), "double_drops": ledger::double_drops() - dd0}),
+                scen.clone(),
+            );
+        }
+        rep.nontrivial(mix(0x0d17, mix(k as u64, fail_first as u64)));
+    }
+    rep.seen("seed_kinds", "drop+plain-value");
+}
+
 /// `get` must not block while another thread is inside the initialiser.
 fn get_never_blocks<U: Seed>(rep: &mut Report) {
     rep.eval();
@@ -627,6 +680,7 @@ pub fn run(args: &Args) -> Report {
     rep.count("race_rounds", (2 * rounds + rounds / 4 + 1) as u64);
     rep.count("race_rounds_contended", contended);
 
+    value_without_drop_glue(&mut rep, &mut rng, if miri { 3 } else { args.n(400, 10_000) });
     get_never_blocks::<SeedTok>(&mut rep);
     get_never_blocks::<SeedPlain>(&mut rep);
 
